@@ -89,3 +89,124 @@ def char_consts_compared(fn):
                 if o['k'] == 'const' and 'char' in o:
                     out.add(o['char'])
     return out
+
+
+# ---------------------------------------------------------------------------------------------
+# finite maps recovered from `match`
+
+def _follow(fn, bb, want, limit=12):
+    """Walk forward from block bb along unconditional edges (goto / call-return / drop / assert) and return the
+    first item `want(block_index, block)` yields (not None)."""
+    seen = set()
+    while bb is not None and bb not in seen and limit > 0:
+        seen.add(bb)
+        limit -= 1
+        b = fn.blocks[bb]
+        r = want(bb, b)
+        if r is not None:
+            return r
+        t = b['term']
+        if not t:
+            return None
+        if t['k'] in ('goto', 'call', 'drop', 'assert') and 't' in t:
+            bb = t['t']
+        else:
+            return None
+    return None
+
+
+def discr_switches(fn, adt_suffix):
+    """Switch terminators whose discriminant is the discriminant of a value of enum `adt_suffix`."""
+    from .defuse import du
+    out = []
+    for bb, t in fn.terms():
+        if t['k'] != 'switch' or t['d']['k'] not in ('copy', 'move'):
+            continue
+        df = du(fn).single_def(t['d']['pl']['l'])
+        if df and df['kind'] == 'assign' and df['rv']['k'] == 'discr' and (df['rv'].get('adt') or '').endswith(adt_suffix):
+            out.append((bb, t, df['rv']))
+    return out
+
+
+def variant_to_value_table(prog, fn, adt_suffix):
+    """For `match x { Variant => <string literal | int literal | call f(..)> }` return
+    {variant name: ('str', s) | ('int', n) | ('call', callee short)} using the first such item on each arm."""
+    adt = prog.adt(adt_suffix.rsplit('::', 1)[-1]) if '::' not in adt_suffix else prog.adts.get(adt_suffix)
+    if adt is None:
+        cands = [a for p, a in prog.adts.items() if p.endswith(adt_suffix)]
+        adt = cands[0] if cands else None
+    if adt is None:
+        return {}
+    by_discr = {v.get('discr', i): v['n'] for i, v in enumerate(adt['variants'])}
+    sw = discr_switches(fn, adt['p'].rsplit('::', 1)[-1])
+    if not sw:
+        return {}
+    bb, t, _ = max(sw, key=lambda x: len(x[1]['ts']))
+    out = {}
+
+    def want(bi, b):
+        for s in b['st']:
+            if s['k'] == 'assign' and s['rv']['k'] == 'use' and s['rv']['op']['k'] == 'const':
+                o = s['rv']['op']
+                if 'str' in o:
+                    return ('str', o['str'])
+                if 'int' in o and s['pl']['l'] == 0:
+                    return ('int', o['int'])
+        tt = b['term']
+        if tt and tt['k'] == 'call':
+            for a in tt['args']:
+                if a['k'] == 'const' and 'str' in a:
+                    return ('str', a['str'])
+            c = callee(tt)
+            if c in prog.fns:
+                return ('call', callee_short(tt))
+        return None
+    listed = set()
+    for v, tb in t['ts']:
+        listed.add(v)
+        r = _follow(fn, tb, want)
+        if r is not None and v in by_discr:
+            out[by_discr[v]] = r
+    rest = [d for d in by_discr if d not in listed]
+    if len(rest) == 1:
+        r = _follow(fn, t['else'], want)
+        if r is not None:
+            out[by_discr[rest[0]]] = r
+    return out
+
+
+def string_to_variant_table(prog, fn, adt_short):
+    """For `match s { "lit" => ... Enum::Variant ... }` lowered to a chain of `<str as PartialEq>::eq(s, "lit")`:
+    {literal: variant name of the first aggregate of the enum on the true edge}."""
+    out = {}
+    dups = []
+    for bb, t in fn.calls():
+        cs = callee_short(t)
+        if not (cs.endswith('PartialEq>::eq') or cs == '<str as PartialEq>::eq'):
+            continue
+        lits = [a['str'] for a in t['args'] if a['k'] == 'const' and 'str' in a]
+        if not lits or 't' not in t:
+            continue
+        sw = fn.blocks[t['t']]['term']
+        if not sw or sw['k'] != 'switch':
+            continue
+        true_t = [tb for v, tb in sw['ts'] if v != 0]
+        if not true_t:
+            true_t = [sw['else']]
+
+        def want(bi, b):
+            for s in b['st']:
+                if s['k'] == 'assign' and s['rv']['k'] == 'agg' and s['rv'].get('ak') == 'adt' \
+                        and s['rv']['adt'].rsplit('::', 1)[-1] == adt_short:
+                    return s['rv']['var']
+                if s['k'] == 'assign' and s['rv']['k'] == 'use' and s['rv']['op']['k'] == 'const' \
+                        and s['rv']['op'].get('ty', '').rsplit('::', 1)[-1] == adt_short:
+                    return s['rv']['op'].get('dbg', '?').rsplit('::', 1)[-1]
+            return None
+        r = _follow(fn, true_t[0], want)
+        if r is not None:
+            if lits[0] in out:
+                dups.append(lits[0])
+            else:
+                out[lits[0]] = r
+    return out, dups
